@@ -818,12 +818,25 @@ class TaskScenario(ScenarioData):
         else:
             seconds_into_slot = slot_duration_seconds
 
-        # Clamp to slot duration (shouldn't exceed, but safety check)
-        seconds_into_slot = min(seconds_into_slot, slot_duration_seconds)
+        # What this task actually booked in the slot, and what was already taken before it
+        # (by other tasks or by the lead-in before a mid-slot dependency bound)
+        booked_seconds = float(slot_duration_seconds)
+        res_scenario_pre = resource.data[self.scenarioIdx] if resource and resource.data else None
+        if res_scenario_pre is not None:
+            for task, secs in res_scenario_pre.slotTaskUsage.get(self.currentSlotIdx, []):
+                if task == self.property:
+                    booked_seconds = secs
+            used_total = res_scenario_pre.slotSecondsUsed.get(self.currentSlotIdx, booked_seconds)
+        else:
+            used_total = booked_seconds
+        seconds_before = max(0.0, used_total - booked_seconds)
+
+        # Clamp to what was booked (shouldn't exceed, but safety check)
+        seconds_into_slot = min(seconds_into_slot, booked_seconds)
 
         # Calculate the precise end time, rounded to nearest second
         # (Gold standard uses second-level precision)
-        seconds_rounded = round(seconds_into_slot)
+        seconds_rounded = round(seconds_before + seconds_into_slot)
 
         if forward:
             # For forward scheduling, end time is offset from slot start
@@ -843,7 +856,7 @@ class TaskScenario(ScenarioData):
                 precise_end = self.project["start"]
 
         # Release unused portion of the slot back to the resource
-        seconds_unused = slot_duration_seconds - seconds_into_slot
+        seconds_unused = booked_seconds - seconds_into_slot
         if seconds_unused > 0 and resource:
             res_scenario = resource.data[self.scenarioIdx] if resource.data else None
             if res_scenario:
@@ -859,9 +872,7 @@ class TaskScenario(ScenarioData):
                 # Old value was full slot duration, new value is actual usage
                 old_total = res_scenario.slotSecondsUsed.get(self.currentSlotIdx, slot_duration_seconds)
                 # Subtract what was previously booked (full slot) and add actual usage
-                res_scenario.slotSecondsUsed[self.currentSlotIdx] = (
-                    old_total - slot_duration_seconds + seconds_into_slot
-                )
+                res_scenario.slotSecondsUsed[self.currentSlotIdx] = old_total - booked_seconds + seconds_into_slot
 
         return precise_end, seconds_into_slot
 
